@@ -347,3 +347,28 @@ case("c12-flag-false-powers", "C12", OPAIR, "    if final_exponentiate:\n       
 case("c12-bn-final-exp-ref", "C12", RP_BN, "def final_exponentiate(p: Field) -> Field:\n    return p ** ((field_modulus**12 - 1) // curve_order)", "def final_exponentiate(p: Field) -> Field:\n    return p ** ((field_modulus**12 - 1) // curve_order - 1)")
 case("c12-twin-expbyp-loop", "C12", OPAIR, "    return sum(\n        (table_entry * int(coeff) for table_entry, coeff in zip(exptable, x.coeffs)),\n        FQ12.zero(),\n    )",
      "    acc = FQ12.zero()\n    for i in range(12):\n        acc = acc + exptable[i] * int(x.coeffs[i])\n    return acc", expect="silent")
+
+UT = "py_ecc/utils.py"
+# ---------------------------------------------------------------- C08 / C14
+case("c08-fq-rsub-swapped", ["C08", "C14"], FE, "        return type(self)((on - self.n) % self.field_modulus)", "        return type(self)((self.n - on) % self.field_modulus)", rule="C08.R1")
+case("c08-optfq-rdiv-wrong", ["C08", "C14"], OFE, "            prime_field_inv(self.n, self.field_modulus) * on % self.field_modulus", "            prime_field_inv(on, self.field_modulus) * self.n % self.field_modulus", rule="C08.R1")
+case("c08-optfq-neg-unreduced", "C08", OFE, "        return type(self)(-self.n)", "        r = type(self)(0)\n        r.n = -self.n\n        return r")
+case("c08-twin-optfqp-mul-ctor-reduces", ["C08", "C14"], OFE, "            return type(self)([x % self.field_modulus for x in b])", "            return type(self)(tuple(FQ_like for FQ_like in b))", expect="silent")
+case("c08-optfqp-mul-mctuples-sign", ["C08", "C14"], OFE, "                    b[exp + i] -= top * c", "                    b[exp + i] += top * c", rule="C08.R2")
+case("c08-reffqp-mul-reduction-index", ["C08", "C14"], FE, "                exp, top = len(b) - self.degree - 1, b.pop()", "                exp, top = len(b) - self.degree, b.pop()", rule="C08.R2")
+case("c08-twin-optfqp-int-mul-ctor-reduces", "C08", OFE, "                [int(c) * other % self.field_modulus for c in self.coeffs]", "                tuple(int(c) * other for c in self.coeffs)", expect="silent")
+case("c08-optfqp-sub-as-add", ["C08", "C14"], OFE, "            [int(x - y) % self.field_modulus for x, y in zip(self.coeffs, other.coeffs)]", "            [int(x + y) % self.field_modulus for x, y in zip(self.coeffs, other.coeffs)]")
+case("c08-reffqp-neg", ["C08", "C14"], FE, "        return type(self)([-c for c in self.coeffs])", "        return type(self)([c for c in self.coeffs])")
+case("c08-euclid-no-zero-case", "C08", UT, "    if a == 0:\n        return 0\n    lm, hm = 1, 0\n    low, high = a % n, n\n    while low > 1:\n        r = high // low\n        nm, new = hm - lm * r, high - low * r\n        lm, low, hm, high = nm, new, lm, low\n    return lm % n\n\n\n# Utility",
+     "    lm, hm = 1, 0\n    low, high = a % n, n\n    while low > 1:\n        r = high // low\n        nm, new = hm - lm * r, high - low * r\n        lm, low, hm, high = nm, new, lm, low\n    return lm % n\n\n\n# Utility", rule="C08.R4")
+case("c08-euclid-update-wrong", "C08", UT, "        nm, new = hm - lm * r, high - low * r\n        lm, low, hm, high = nm, new, lm, low\n    return lm % n\n\n\n# Utility", "        nm, new = hm + lm * r, high - low * r\n        lm, low, hm, high = nm, new, lm, low\n    return lm % n\n\n\n# Utility", rule="C08.R4")
+case("c08-secp-euclid-returns-hm", "C08", SECP, "        lm, low, hm, high = nm, new, lm, low\n    return lm % n", "        lm, low, hm, high = nm, new, lm, low\n    return hm % n", rule="C08.R4")
+case("c08-pow-loop-no-square", "C08", OFE, "            other >>= 1\n            t = t * t\n        return o\n\n    def __eq__", "            other >>= 1\n            t = t * self\n        return o\n\n    def __eq__", rule="C08.R5")
+case("c08-pow-recursive-again", "C08", FE, "        o = type(self)(1)\n        t = self\n        while other > 0:\n            if other & 1:\n                o = o * t\n            other >>= 1\n            t = t * t\n        return o",
+     "        if other == 0:\n            return type(self)(1)\n        elif other == 1:\n            return type(self)(self.n)\n        elif other % 2 == 0:\n            return (self * self) ** (other // 2)\n        else:\n            return ((self * self) ** int(other // 2)) * self", rule="C08.R6")
+case("c08-store-n-outside-init", "C08", OFE, "    def __int__(self: T_FQ) -> int:\n        return self.n", "    def __int__(self: T_FQ) -> int:\n        self.n = self.n % self.field_modulus\n        return self.n", rule="C08.R3")
+case("c14-sgn0-fq2-simplified", "C14", OFE, "        return sign_0 or (zero_0 and sign_1)", "        return sign_0 or sign_1", rule="C14.R2")
+case("c14-sgn0-fqp-zero-update", "C14", OFE, "            zero = zero and zero_i", "            zero = zero_i", rule="C14.R2")
+case("c14-sgn0-fq", "C14", OFE, "        return self.n % 2\n", "        return (self.n * 2) // self.field_modulus\n", rule="C14.R2")
+case("c08-twin-mul-comm", ["C08", "C14"], OFE, "        return type(self)((self.n * on) % self.field_modulus)", "        return type(self)((on * self.n) % self.field_modulus)", expect="silent")
+case("c08-twin-pow-parity-form", "C08", OFE, "            if other & 1:\n                o = o * t\n            other >>= 1\n            t = t * t\n        return o\n\n    def __eq__", "            if other % 2 == 1:\n                o = t * o\n            other = other // 2\n            t = t * t\n        return o\n\n    def __eq__", expect="silent")
